@@ -58,6 +58,8 @@ def make_case(rng, tier):
         t, _ = G.chain(rng, rng.randint(2, 8)); fam = "chain"
     names = sorted(S.variables(t))
     pts = [G.rand_point(rng, names, vals, extra=0.05) for _ in range(2)]
+    if rng.random() < 0.3:
+        pts += G.collision_twins(rng, names, vals)
     return {"kind": "rev", "family": fam, "spec": S.to_json(t), "points": [S.point_to_json(p) for p in pts],
             "mode": "dag" if rng.random() < 0.8 else "tree", "absent": rng.choice(["q", "t", "x1"])}
 
